@@ -190,9 +190,8 @@ EXC_CODES = {n: i for i, n in enumerate(py2lean.EXC_NAMES)}
 def call_method(spec, fn, case):
     """a method of a class with object state: build the object from the state in `case['self']`, call, read the
     state back.  -> (('ok', value) | ('exc', class name), state after as {attr: value})"""
-    import importlib
     cls = spec['cls']
-    pycls = getattr(importlib.import_module(spec['module']), cls['name'])
+    pycls = fn.__globals__[cls['name']]
     obj = pycls.__new__(pycls)
     for a, tt in cls['state'].items():
         setattr(obj, a, to_py(py2lean.parse_type(tt), case['self'][a]))
@@ -470,6 +469,128 @@ def s_else(xs, k):
     else:
         pos = -pos
     return pos
+
+def r_divmod(a, b):
+    return (a // b, a % b)
+
+def r_index(xs, i):
+    try:
+        return xs[i]
+    except IndexError:
+        return -1
+
+def r_try(xs, i, j):
+    total = 0
+    try:
+        total += xs[i]
+        total += 10 // j
+    except IndexError:
+        total -= 100
+    except ZeroDivisionError:
+        total -= 1000
+    else:
+        total += 1
+    return total
+
+def r_raise(n):
+    if n < 0:
+        raise ValueError('negative: %r' % n)
+    if n == 0:
+        raise KeyError
+    if n == 7:
+        raise TypeError()
+    return n
+
+def r_loop(xs, n):
+    acc = []
+    for i in range(n):
+        try:
+            if xs[i] == 0:
+                continue
+            acc.append(10 // xs[i])
+        except IndexError:
+            break
+    return acc
+
+def r_uncaught(xs, n):
+    acc = 0
+    for i in range(n):
+        try:
+            acc += 10 % xs[i]
+        except ZeroDivisionError:
+            acc -= 1
+    return acc
+
+def r_comp(xs, k):
+    return sum([x * 2 for x in xs if x > k])
+
+def r_sorted(ps, up):
+    if up:
+        return sorted(ps, key=lambda p: p[1])
+    return sorted(ps, key=lambda p: p[1], reverse=True)
+
+def r_enum(xs, start):
+    out = []
+    for i, x in enumerate(xs, start):
+        out.append(i * x)
+    for j, y in enumerate(xs):
+        out.append(j + y)
+    return out
+
+def r_opt(n, xs):
+    if n is not None and n <= 0:
+        return []
+    if n is None or n >= len(xs):
+        return xs
+    return xs[:n]
+
+class Box:
+    def put(self, k, v):
+        if k in self.d:
+            self.d[k][0] += v
+        else:
+            self.d[k] = [v, self.n]
+        self.n += 1
+
+    def drop(self, k):
+        self.n -= 1
+        del self.d[k]
+        self.n -= 10
+
+    def bump(self, k, by):
+        try:
+            self.d[k][1] += 100 // by
+        except KeyError:
+            self.n = -1
+            raise ValueError('no such key')
+        return self.d[k][1]
+
+    def firsts(self):
+        return sum([a for a, _ in self.d.values()])
+
+    def view(self):
+        for k in self.d:
+            yield (k, self.d[k][0] + self.d[k][1])
+
+    def big(self, lim):
+        self.d = {k: v for k, v in self.d.items() if v[0] > lim}
+        return len(self.d)
+
+    def fill(self, ks, v):
+        for k in ks:
+            self.put(k, v)
+        return self.firsts()
+
+    def count_down(self, m):
+        if m is not None:
+            if callable(getattr(m, 'items', None)):
+                for k, c in m.items():
+                    self.put(k, c)
+            else:
+                for k in m:
+                    self.put(k, 1)
+        if self.n > 3:
+            self.count_down([])
 '''
 
 SNIPPET_SPECS = [
@@ -486,8 +607,42 @@ SNIPPET_SPECS = [
     {'qualname': 's_strs', 'params': {'parts': 'List Str', 'sep': 'Str'}, 'kind': 'function', 'result': 'List Str'},
     {'qualname': 's_else', 'params': {'xs': 'List Int', 'k': 'Int'}, 'kind': 'function', 'result': 'Int'},
 ]
+SNIPPET_SPECS += [
+    {'qualname': 'r_divmod', 'params': {'a': 'Int', 'b': 'Int'}, 'kind': 'function', 'result': 'Int × Int', 'raises': True},
+    {'qualname': 'r_index', 'params': {'xs': 'List Int', 'i': 'Int'}, 'kind': 'function', 'result': 'Int', 'raises': True},
+    {'qualname': 'r_try', 'params': {'xs': 'List Int', 'i': 'Int', 'j': 'Int'}, 'kind': 'function', 'result': 'Int',
+     'raises': True},
+    {'qualname': 'r_raise', 'params': {'n': 'Int'}, 'kind': 'function', 'result': 'Int', 'raises': True},
+    {'qualname': 'r_loop', 'params': {'xs': 'List Int', 'n': 'Int'}, 'kind': 'function', 'result': 'List Int',
+     'raises': True},
+    {'qualname': 'r_uncaught', 'params': {'xs': 'List Int', 'n': 'Int'}, 'kind': 'function', 'result': 'Int',
+     'raises': True},
+    {'qualname': 'r_comp', 'params': {'xs': 'List Int', 'k': 'Int'}, 'kind': 'function', 'result': 'Int', 'raises': True},
+    {'qualname': 'r_sorted', 'params': {'ps': 'List (Int × Int)', 'up': 'Bool'}, 'kind': 'function',
+     'result': 'List (Int × Int)', 'raises': True},
+    {'qualname': 'r_enum', 'params': {'xs': 'List Int', 'start': 'Int'}, 'kind': 'function', 'result': 'List Int',
+     'raises': True},
+    {'qualname': 'r_opt', 'params': {'n': 'Option Int', 'xs': 'List Int'}, 'kind': 'function', 'result': 'List Int',
+     'raises': True},
+]
 for _sp in SNIPPET_SPECS:
     _sp.update(module='snippets', lean_name=_sp['qualname'], tie_theorem='-')
+
+BOX = {'name': 'Box', 'lean_name': 'Box', 'tparams': ['κ'], 'deceq': ['κ'],
+       'state': {'d': 'Dict κ (Int × Int)', 'n': 'Int'}}
+SNIPPET_SPECS += srctie_specs._cls_methods(BOX, 'snippets', [
+    {'py': 'put', 'name': 'put', 'params': {'k': 'κ', 'v': 'Int'}, 'result': 'None', 'tie_theorem': '-'},
+    {'py': 'drop', 'name': 'drop', 'params': {'k': 'κ'}, 'result': 'None', 'tie_theorem': '-'},
+    {'py': 'bump', 'name': 'bump', 'params': {'k': 'κ', 'by': 'Int'}, 'result': 'Int', 'tie_theorem': '-'},
+    {'py': 'firsts', 'name': 'firsts', 'params': {}, 'result': 'Int', 'tie_theorem': '-'},
+    {'py': 'view', 'name': 'view', 'params': {}, 'kind': 'generator', 'result': 'κ × Int', 'tie_theorem': '-'},
+    {'py': 'big', 'name': 'big', 'params': {'lim': 'Int'}, 'result': 'Int', 'tie_theorem': '-'},
+    {'py': 'fill', 'name': 'fill', 'params': {'ks': 'List κ', 'v': 'Int'}, 'result': 'Int', 'tie_theorem': '-'},
+    {'py': 'count_down', 'name': 'count_down_keys', 'params': {'m': 'Option (List κ)'}, 'result': 'None',
+     'fuel': True, 'tie_theorem': '-'},
+    {'py': 'count_down', 'name': 'count_down_map', 'params': {'m': 'Option (Dict κ Int)'}, 'result': 'None',
+     'fuel': True, 'tie_theorem': '-'},
+])
 
 
 def _ints(rng, n, lo=-3, hi=6):
@@ -529,6 +684,61 @@ def fam_snippet(name):
             for _ in range(n):
                 yield dict(parts=[rng.choice(['', 'x', '/', 'ab', "'", '\\\\']) for _ in range(rng.randint(0, 6))],
                            sep=rng.choice(['/', '', 'ab']))
+        elif name == 'r_divmod':
+            for a in range(-7, 8):
+                for b in range(-4, 5):
+                    yield dict(a=a, b=b)
+        elif name == 'r_index':
+            for ln in range(0, 5):
+                for i in range(-6, 7):
+                    yield dict(xs=list(range(10, 10 + ln)), i=i)
+        elif name == 'r_try':
+            for ln in range(0, 4):
+                for i in range(-5, 6):
+                    for j in (-3, 0, 1, 20):
+                        yield dict(xs=list(range(10, 10 + ln)), i=i, j=j)
+        elif name == 'r_raise':
+            for a in range(-3, 10):
+                yield dict(n=a)
+        elif name in ('r_loop', 'r_uncaught'):
+            for _ in range(n):
+                yield dict(xs=_ints(rng, rng.randint(0, 5), -2, 3), n=rng.randint(-1, 7))
+        elif name == 'r_comp':
+            for _ in range(n):
+                yield dict(xs=_ints(rng, rng.randint(0, 6)), k=rng.randint(-3, 6))
+        elif name == 'r_sorted':
+            for _ in range(n):
+                yield dict(ps=[(rng.randint(0, 9), rng.randint(0, 3)) for _ in range(rng.randint(0, 7))],
+                           up=rng.random() < 0.5)
+        elif name == 'r_enum':
+            for _ in range(n):
+                yield dict(xs=_ints(rng, rng.randint(0, 5)), start=rng.randint(-2, 3))
+        elif name == 'r_opt':
+            for _ in range(n):
+                yield dict(n=rng.choice([None, None, -1, 0, 1, 2, 3, 9]), xs=_ints(rng, rng.randint(0, 5)))
+        elif name.startswith('Box.'):
+            ks = ['a', 'b', 'c', '']
+            for _ in range(2 * n):
+                st = {'d': {k: (rng.randint(-3, 9), rng.randint(-3, 9)) for k in rng.sample(ks, rng.randint(0, 4))},
+                      'n': rng.randint(-2, 8)}
+                case = {'self': st}
+                m = name[4:]
+                if m in ('put',):
+                    case.update(k=rng.choice(ks), v=rng.randint(-2, 5))
+                elif m == 'drop':
+                    case.update(k=rng.choice(ks))
+                elif m == 'bump':
+                    case.update(k=rng.choice(ks), by=rng.choice([0, 1, 7, -3, 200]))
+                elif m == 'big':
+                    case.update(lim=rng.randint(-3, 9))
+                elif m == 'fill':
+                    case.update(ks=[rng.choice(ks) for _ in range(rng.randint(0, 5))], v=rng.randint(-2, 5))
+                elif m == 'count_down_map':
+                    case.update(m=None if rng.random() < 0.2 else
+                                {k: rng.randint(-1, 4) for k in rng.sample(ks, rng.randint(0, 3))})
+                elif m == 'count_down_keys':
+                    case.update(m=None if rng.random() < 0.2 else [rng.choice(ks) for _ in range(rng.randint(0, 5))])
+                yield case
     return fam
 
 
@@ -542,7 +752,13 @@ def snippet_functions():
     exec(compile(SNIPPET_SRC, '<snippets>', 'exec'), ns)
     for sp in SNIPPET_SPECS:
         FAMILIES[sp['lean_name']] = fam_snippet(sp['lean_name'])
-    return text, [(sp, 'snippets', ns[sp['qualname']]) for sp in SNIPPET_SPECS]
+
+    def lookup(q):
+        obj = ns[q.split('.')[0]]
+        for part in q.split('.')[1:]:
+            obj = getattr(obj, part)
+        return obj
+    return text, [(sp, 'snippets', lookup(sp['qualname'])) for sp in SNIPPET_SPECS]
 
 
 # ------------------------------------------------------------------ driver
@@ -604,9 +820,10 @@ def build_driver(pids, repo, snippets=False):
         pat = names[0] if len(names) == 1 else '(' + ', '.join(names) + ')'
         call = ' '.join(names)
         full = 'Src.%s.%s' % (short, spec['lean_name'])
+        encf = 'encExcept' if tr.raises else 'Codec.enc'
         arms.append('  | %d :: t => (match (Codec.dec t : Option (%s × List Int)) with\n'
-                    '    | some (%s, []) => showInts (Codec.enc (%s_pre %s) ++ Codec.enc (%s %s))\n'
-                    '    | _ => "bad-args")' % (n, argt, pat, full, call, full, call))
+                    '    | some (%s, []) => showInts (Codec.enc (%s_pre %s) ++ %s (%s %s))\n'
+                    '    | _ => "bad-args")' % (n, argt, pat, full, call, encf, full, call))
     body.append('def handle : List Int → String\n' + '\n'.join(arms) + '\n  | _ => "bad-function"\n')
     body.append('''partial def loop (h : IO.FS.Stream) (out : IO.FS.Stream) : IO Unit := do
   let line ← h.getLine
@@ -706,6 +923,8 @@ def run(pids, quick=False, seed=0, verbose=True, snippets=False):
         if spec.get('cls') is not None:
             # raising mode: the exception class (or the value) AND the state after the call must agree
             (kind, res), after = call_method(spec, fn, case)
+            if kind == 'exc' and res == 'CaseTimeout':
+                kind = 'timeout' 
             try:
                 if kind == 'exc':
                     r['python_raises'] += 1
@@ -721,7 +940,7 @@ def run(pids, quick=False, seed=0, verbose=True, snippets=False):
                 want = 'unencodable %r / %r (%s)' % (res, after, e)
             if want is not None:
                 r['compared'] += 1
-                if res == 'CaseTimeout':
+                if kind == 'timeout':
                     bad = 'Python does not terminate'
                 elif want != val:
                     bad = 'Python %s %r, state after %r (stream %s) but Lean stream %s' % (kind, res, after, want, val)
@@ -730,6 +949,23 @@ def run(pids, quick=False, seed=0, verbose=True, snippets=False):
                 mismatches.append((spec['lean_name'], case, bad))
             continue
         kind, res = call_real(spec, fn, case)
+        if spec.get('raises') and pre != 0:
+            # raising mode: the exception class is part of the result
+            if kind == 'exc':
+                r['python_raises'] += 1
+            r['compared'] += 1
+            try:
+                want = [0, EXC_CODES.get(res, 7)] if kind == 'exc' else [1] + canon(rtype, res)
+            except Exception as e:  # noqa: BLE001
+                want = 'unencodable %r (%s)' % (res, e)
+            if res == 'CaseTimeout':
+                bad = 'Python does not terminate'
+            elif want != val:
+                bad = 'Python %s %r (stream %s) but Lean stream %s' % (kind, res, want, val)
+            if bad:
+                r['mismatches'] += 1
+                mismatches.append((spec['lean_name'], case, bad))
+            continue
         if pre == 0:
             r['pre_false'] += 1
             if kind == 'ok':
@@ -825,6 +1061,110 @@ REJECT = [
 ]
 
 
+# the boundary of the round-3 subset (raising mode, object state): (name, source, qualname, spec extras)
+_RBOX = {'name': 'B', 'lean_name': 'B', 'tparams': ['κ'], 'deceq': ['κ'],
+         'state': {'d': 'Dict κ (Int × Int)', 'n': 'Int'}}
+_RBOX['methods'] = [
+    {'py': 'put', 'lean_name': 'B.put', 'qualname': 'B.put', 'params': {'k': 'κ'}, 'result': 'Int', 'raises': True,
+     'kind': 'function', 'method': True, 'cls': _RBOX, 'module': 'x'},
+    {'py': 'rec', 'lean_name': 'B.rec', 'qualname': 'B.rec', 'params': {'k': 'κ'}, 'result': 'Int', 'raises': True,
+     'kind': 'function', 'method': True, 'cls': _RBOX, 'module': 'x'}]
+_PUT = '    def put(self, k):\n        self.d[k] = [1, 2]\n        return 1\n'
+REJECT2 = [
+    ('a lookup that can raise under `and`', 'def f(xs, i):\n    return i >= 0 and xs[i] > 0\n',
+     'f', {'params': {'xs': 'List Int', 'i': 'Int'}, 'result': 'Bool', 'raises': True}),
+    ('a division that can raise inside a comprehension', 'def f(xs):\n    return [10 // x for x in xs]\n',
+     'f', {'params': {'xs': 'List Int'}, 'result': 'List Int', 'raises': True}),
+    ('try ... finally', 'def f(n):\n    try:\n        return 1 // n\n    finally:\n        pass\n',
+     'f', {'params': {'n': 'Int'}, 'result': 'Int', 'raises': True}),
+    ('except Exception', 'def f(n):\n    try:\n        return 1 // n\n    except Exception:\n        return 0\n',
+     'f', {'params': {'n': 'Int'}, 'result': 'Int', 'raises': True}),
+    ('except ... as e', 'def f(n):\n    try:\n        return 1 // n\n    except ZeroDivisionError as e:\n        return 0\n',
+     'f', {'params': {'n': 'Int'}, 'result': 'Int', 'raises': True}),
+    ('a tuple of exception classes', 'def f(n):\n    try:\n        return 1 // n\n    except (KeyError, ZeroDivisionError):\n        return 0\n',
+     'f', {'params': {'n': 'Int'}, 'result': 'Int', 'raises': True}),
+    ('an exception class outside PyExc', 'def f(n):\n    if n:\n        raise RuntimeError()\n    return n\n',
+     'f', {'params': {'n': 'Int'}, 'result': 'Int', 'raises': True}),
+    ('bare re-raise', 'def f(n):\n    try:\n        return 1 // n\n    except ZeroDivisionError:\n        raise\n',
+     'f', {'params': {'n': 'Int'}, 'result': 'Int', 'raises': True}),
+    ('an exception message that could raise', 'def f(n, xs):\n    if n:\n        raise ValueError(xs[n])\n    return n\n',
+     'f', {'params': {'n': 'Int', 'xs': 'List Int'}, 'result': 'Int', 'raises': True}),
+    ('while loop (raising mode)', 'def f(n):\n    while n > 0:\n        n -= 1\n    return n\n',
+     'f', {'params': {'n': 'Int'}, 'result': 'Int', 'raises': True}),
+    ('two for clauses in a comprehension', 'def f(xs):\n    return [x + y for x in xs for y in xs]\n',
+     'f', {'params': {'xs': 'List Int'}, 'result': 'List Int', 'raises': True}),
+    ('lambda outside sorted(key=)', 'def f(xs):\n    g = lambda x: x\n    return xs\n',
+     'f', {'params': {'xs': 'List Int'}, 'result': 'List Int', 'raises': True}),
+    ('comprehension variable shadowing a local', 'def f(xs):\n    x = 1\n    return [x for x in xs]\n',
+     'f', {'params': {'xs': 'List Int'}, 'result': 'List Int', 'raises': True}),
+    ('alias of a mutable attribute in a mutating method',
+     'class B:\n    def m(self, k):\n        x = self.d\n        self.d[k] = [1, 2]\n        return len(x)\n',
+     'B.m', {'params': {'k': 'κ'}, 'result': 'Int', 'raises': True, 'cls': _RBOX, 'method': True}),
+    ('an item of a mutable attribute kept across a mutation',
+     'class B:\n    def m(self, k):\n        x = self.d[k]\n        self.d[k][0] += 1\n        return x[0]\n',
+     'B.m', {'params': {'k': 'κ'}, 'result': 'Int', 'raises': True, 'cls': _RBOX, 'method': True}),
+    ('loop over object state that the body changes',
+     'class B:\n    def m(self, k):\n        for j in self.d:\n            self.d[j] = [0, 0]\n        return 1\n',
+     'B.m', {'params': {'k': 'κ'}, 'result': 'Int', 'raises': True, 'cls': _RBOX, 'method': True}),
+    ('loop over object state while a called method changes it',
+     'class B:\n' + _PUT + '    def m(self, k):\n        for j in self.d:\n            self.put(j)\n        return 1\n',
+     'B.m', {'params': {'k': 'κ'}, 'result': 'Int', 'raises': True, 'cls': _RBOX, 'method': True}),
+    ('a state-changing call inside an expression',
+     'class B:\n' + _PUT + '    def m(self, k):\n        return 1 + self.put(k)\n',
+     'B.m', {'params': {'k': 'κ'}, 'result': 'Int', 'raises': True, 'cls': _RBOX, 'method': True}),
+    ('an attribute the spec does not declare',
+     'class B:\n    def m(self, k):\n        return self.zzz\n',
+     'B.m', {'params': {'k': 'κ'}, 'result': 'Int', 'raises': True, 'cls': _RBOX, 'method': True}),
+    ('assignment to an undeclared attribute',
+     'class B:\n    def m(self, k):\n        self.zzz = 1\n        return 1\n',
+     'B.m', {'params': {'k': 'κ'}, 'result': 'Int', 'raises': True, 'cls': _RBOX, 'method': True}),
+    ('a recursive method without fuel',
+     'class B:\n    def rec(self, k):\n        return self.rec(k)\n',
+     'B.rec', {'params': {'k': 'κ'}, 'result': 'Int', 'raises': True, 'cls': _RBOX, 'method': True, 'py': 'rec',
+               'lean_name': 'B.rec'}),
+    ('a call of a method that is not in the spec',
+     'class B:\n    def m(self, k):\n        return self.other(k)\n',
+     'B.m', {'params': {'k': 'κ'}, 'result': 'Int', 'raises': True, 'cls': _RBOX, 'method': True}),
+    ('dict lookup in the total mode',
+     'class B:\n    def m(self, k):\n        return self.d[k][0]\n',
+     'B.m', {'params': {'k': 'κ'}, 'result': 'Int', 'raises': False, 'cls': _RBOX, 'method': True}),
+    ('storing a value into a method of another object',
+     'class B:\n    def m(self, k):\n        self.d[k].append(1)\n        return 1\n',
+     'B.m', {'params': {'k': 'κ'}, 'result': 'Int', 'raises': True, 'cls': _RBOX, 'method': True}),
+    ('a variable index into a fixed-length list',
+     'class B:\n    def m(self, k):\n        return self.d[k][self.n]\n',
+     'B.m', {'params': {'k': 'κ'}, 'result': 'Int', 'raises': True, 'cls': _RBOX, 'method': True}),
+    ('a float', 'def f(n):\n    return int(1 / n)\n', 'f', {'params': {'n': 'Int'}, 'result': 'Int', 'raises': True}),
+    ('iteration over a set-valued expression', 'def f(xs):\n    out = []\n    for x in set(xs):\n        out.append(x)\n    return out\n',
+     'f', {'params': {'xs': 'List Int'}, 'result': 'List Int', 'raises': True}),
+    ('use of a possibly-None value without a test', 'def f(n):\n    return n + 1\n',
+     'f', {'params': {'n': 'Option Int'}, 'result': 'Int', 'raises': True}),
+    ('narrowing lost by an assignment', 'def f(n, m):\n    if n is not None:\n        n = m\n        return n + 1\n    return 0\n',
+     'f', {'params': {'n': 'Option Int', 'm': 'Option Int'}, 'result': 'Int', 'raises': True}),
+]
+
+
+def reject_tests2(verbose=True):
+    import ast
+    bad = []
+    for name, src, qual, extra in REJECT2:
+        spec = {'module': 'x', 'qualname': qual, 'lean_name': qual, 'kind': 'function', 'tie_theorem': '-'}
+        spec.update(extra)
+        tree = ast.parse(src)
+        try:
+            fdef = py2lean._find_function(tree, qual)
+            text = py2lean.FnTranslator(fdef, spec, {}, tree).emit()
+            bad.append((name, text))
+        except (py2lean.Unsupported, py2lean._Unknown):
+            pass
+    if verbose:
+        print('subset boundary (raising mode / object state): %d/%d snippets refused' % (
+            len(REJECT2) - len(bad), len(REJECT2)))
+        for name, text in bad:
+            print('ACCEPTED (should be refused): %s\n%s' % (name, text))
+    return len(bad)
+
+
 def reject_tests(verbose=True):
     """every snippet above lies outside the subset: the translator must raise Unsupported, not emit Lean"""
     import ast
@@ -853,7 +1193,7 @@ def main(argv):
         seed = int(argv[argv.index('--seed') + 1])
     pids = [a for a in argv[1:] if a.upper().startswith('C') and a[1:].isdigit()] or sorted(srctie_specs.SPECS)
     try:
-        n = reject_tests()
+        n = reject_tests() + reject_tests2()
         n += run([p.upper() for p in pids], quick, seed, snippets='--no-snippets' not in argv)[0]
     except common.InfraError as e:
         print('infrastructure error: %s' % e)
